@@ -7,11 +7,12 @@ Driver for C10 (line protocol, see harness/props/c10.py).
 
   {"op":"members","cls":"Cell"}
       -> {"members":[[name,dataType,container,optional],…]}            (chain order; the harness sorts)
-  {"op":"seq","parent":OBJ,"pool":[OBJ…],"calls":[{"c":poolIndex,"hint":str|null,"force":b,"en":b,"val":b,"pv":b},…]}
+  {"op":"seq","parent":OBJ,"pool":[OBJ…],"calls":[{"c":poolIndex,"hint":str|null,"force":b,"en":b,"val":b,"pv":b,"sok":b},…]}
       -> {"res":[{"r":"ok"|"err:<tag>","w":null|"occupied"|"duplicate","ret":oid|null,"ch":[[attr,CANON],…]},…]}
   VAL   = null | ["a",repr,truthy] | ["n",id] | ["l",[VAL…]] | OBJ        OBJ = ["o",oid,"Class",[[attr,VAL],…]]
   CANON = null | ["a",repr] | ["n",id] | ["o",oid] | ["l",[CANON…]]        (shallow: objects by identity)
-`pv` is the verdict of the real `validate()` on the real parent after the call (`valid` is a parameter of the model).
+`pv` is the verdict of the real `validate()` on the real parent after the call, `sok` whether the real `str(child)`
+returns (`valid`, `strOk` are parameters of the model).
 -/
 open Lean NmlVerif NmlVerif.Add Drv
 
@@ -80,7 +81,7 @@ def diff (before after : Obj) : List Json :=
 
 def errTag : Err → String
   | .noMember => "noMember" | .ambiguous => "ambiguous" | .badHint => "badHint"
-  | .keyError => "keyError" | .notAList => "notAList" | .invalid => "invalid"
+  | .keyError => "keyError" | .notAList => "notAList" | .invalid => "invalid" | .strFails => "strFails"
 
 def warnJ : Option Warn → Json
   | none => .null | some .occupied => "occupied" | some .duplicate => "duplicate"
@@ -100,7 +101,8 @@ def handle (j : Json) : Json :=
       let child := pool.getD (getNat c "c") (.mk 0 0 [])
       let hint := (getStr? c "hint").bind (fun s => if s.isEmpty then none else some (intern s))
       let pv := getBool c "pv"
-      let r := addCore (!old) (fun _ => pv) (Gen.Members.table.getMembers parent.cls)
+      let sok := getBool c "sok"
+      let r := addCore (!old) (fun _ => pv) (fun _ => sok) (Gen.Members.table.getMembers parent.cls)
                 ⟨getBool c "en", getBool c "val"⟩ parent child hint (getBool c "force")
       let ch := Json.arr (diff parent r.parent).toArray
       let out := match r.result with
